@@ -376,7 +376,9 @@ func (c *compiler) checkLR0() {
 }
 
 func (c *compiler) addShift(from, to *state) {
-	if len(from.shifts) == 0 && len(from.reduce) > 0 {
+	if len(from.reduce) > 0 && (len(from.shifts) == 0 || int(to.symbol) < c.grammar.Terminals) {
+		// Note: a terminal transition (end-of-input) next to a reduction requires a lookahead,
+		// even if the state already has nonterminal transitions.
 		from.lr0 = false
 	}
 	from.shifts = append(from.shifts, to.index)
